@@ -334,7 +334,7 @@ func idiomScenarios(prop, api string) func(tier string) []scenario {
 			for _, k := range []connCfg{{Client: true}, {Client: false, Flate: true, Thr: 512}} {
 				for _, split := range []int{3} {
 					prm := idiomParams{Prop: prop, API: api, K: k, Duplex: true, Split: split, Msgs: []idiomMsg{{Chunks: []int{300}}}}
-					scs = append(scs, scenario{Name: fmt.Sprintf("idiom/duplex-split%d/%s", split, k.String()), Cfg: explore.Config{P: p, Horizon: 60e9}, Setup: idiomSetup(prm)})
+					scs = append(scs, scenario{Name: fmt.Sprintf("idiom/duplex-split%d/%s", split, k.String()), Cfg: explore.Config{P: 1, Horizon: 60e9}, Setup: idiomSetup(prm)}) // (both tiers: 19 k executions at one preemption)
 				}
 			}
 		}
